@@ -66,6 +66,8 @@ def generate(seed, idx, tier):
   else:
     D = wpick(rng, [(2, 3), (3, 3), (4, 2), (5, 2), (6, 1), (7, 2), (8, 1),
                     (9, 1), (11, 1), (13, 1)])
+    if idx % 3 == 0:
+      D = 2 + (idx // 3) % 12     # every D in 2..13 is visited by index
     D2 = 1
   T = rng.randrange(5, 11) if tier == 'quick' else rng.randrange(6, 21)
   ops = common.gen_history(rng, cfg, len(tree), T, 0.0, restores=True,
